@@ -20,7 +20,9 @@ pub fn gen_val(r: &mut Rng, ty: Ty, nullable: bool) -> DataValue {
             0 => *r.pick(&[-3000000000i64, 3000000000, 4294967296, -1]),
             _ => r.range(0, 15),
         }),
-        Ty::Str => DataValue::String((*r.pick(&["", "a", "ab", "b", "c", "d", "e", "zz", "B"])).into()),
+        Ty::Str | Ty::Char => DataValue::String((*r.pick(&["", "a", "ab", "b", "c", "d", "e", "zz", "B"])).into()),
+        Ty::I16 => DataValue::Int16(r.range(-3, 15) as i16),
+        Ty::Bool => DataValue::Bool(r.chance(1, 2)),
     }
 }
 
@@ -35,9 +37,9 @@ fn gen_case(r: &mut Rng, id: usize) -> Case {
     let mut cols = vec![];
     for i in 0..ncols {
         let ty = if Some(i) == pk {
-            if r.chance(4, 5) { Ty::I32 } else { *r.pick(&[Ty::I64, Ty::Str]) }
+            if r.chance(3, 5) { Ty::I32 } else { *r.pick(&[Ty::I64, Ty::Str, Ty::I16, Ty::Char]) }
         } else {
-            *r.pick(&[Ty::I32, Ty::I32, Ty::I64, Ty::Str])
+            *r.pick(&[Ty::I32, Ty::I32, Ty::I32, Ty::I64, Ty::Str, Ty::I16, Ty::Bool, Ty::Char])
         };
         cols.push(ColDef { ty, nullable: Some(i) != pk && r.chance(1, 2) });
     }
@@ -68,7 +70,9 @@ fn gen_case(r: &mut Rng, id: usize) -> Case {
                         v = match c.ty {
                             Ty::I32 => DataValue::Int32(r.range(-5, hi) as i32),
                             Ty::I64 => DataValue::Int64(r.range(-5, hi)),
-                            Ty::Str => DataValue::String(format!("k{}", r.range(0, 5000)).into()),
+                            Ty::I16 => DataValue::Int16(r.range(-5, hi) as i16),
+                            Ty::Bool => DataValue::Bool(r.chance(1, 2)),
+                            Ty::Str | Ty::Char => DataValue::String(format!("k{}", r.range(0, 5000)).into()),
                         };
                         tries += 1;
                     }
